@@ -161,3 +161,82 @@ var ruleLeaf = &Rule{
 }
 
 func init() { register(ruleLeaf) }
+
+// R-EMITORDER (C15, C09): the traversal emits one element at a time.
+//
+// Document pre-order requires that an element is emitted and its subtree
+// visited before its next sibling is emitted. In the traversal function the
+// result list is therefore written only by handing it the element just loaded
+// from the sequence (inside the loop); a store to the list's fields, an append
+// of the whole sequence, or a list method receiving anything but that element
+// emits siblings ahead of descendants.
+var ruleEmitOrder = &Rule{
+	Name: "R-EMITORDER", NeedSSA: true,
+	Doc: "in the traversal function (the self-recursive executor method over a []any) the result list is written only by a list method that receives the element just loaded from the sequence; no store to the list's fields, no builtin append on them, no list method receiving the sequence or anything else: a bulk emission of a level puts siblings before descendants and breaks document pre-order",
+	Run: func(p *Prog) *RuleOut {
+		out := newOut("R-EMITORDER")
+		var T *ssa.Function
+		var valueP *ssa.Parameter
+		for _, fn := range p.execFuncs() {
+			if !isMethodOfExecutor(p, fn) || len(callsTo(fn, fn)) == 0 {
+				continue
+			}
+			for _, q := range fn.Params {
+				if sl, ok := q.Type().(*types.Slice); ok && types.IsInterface(sl.Elem()) {
+					T, valueP = fn, q
+				}
+			}
+		}
+		coll := (*ssa.Parameter)(nil)
+		if T != nil {
+			coll = p.collectorParam(T)
+		}
+		if T == nil || coll == nil {
+			out.undecided("traversal function", "-", "", "anchor unresolved: self-recursive executor method over a []any with a collector")
+			return out
+		}
+		isElem := func(v ssa.Value) bool {
+			u, ok := stripConv(v).(*ssa.UnOp)
+			if !ok || u.Op != token.MUL {
+				return false
+			}
+			ia, ok := u.X.(*ssa.IndexAddr)
+			return ok && ia.X == ssa.Value(valueP)
+		}
+		nw := 0
+		var bad []string
+		for _, b := range T.Blocks {
+			for _, ins := range b.Instrs {
+				switch x := ins.(type) {
+				case *ssa.Store:
+					if fa, ok := x.Addr.(*ssa.FieldAddr); ok && fa.X == ssa.Value(coll) {
+						nw++
+						bad = append(bad, "a store to the result list's field at "+p.pos(x.Pos()))
+					}
+				case *ssa.Call:
+					sc := x.Call.StaticCallee()
+					if sc == nil || sc.Signature.Recv() == nil || namedOf(sc.Signature.Recv().Type()) != p.A.ValueList || len(x.Call.Args) == 0 || x.Call.Args[0] != ssa.Value(coll) {
+						continue
+					}
+					if len(writesOf(sc)) == 0 {
+						continue // a reader (isEmpty, len)
+					}
+					nw++
+					if len(x.Call.Args) != 2 || !isElem(x.Call.Args[1]) {
+						bad = append(bad, "the list method "+sc.Name()+" at "+p.pos(x.Pos())+" receives something other than the element just visited")
+					}
+				}
+			}
+		}
+		out.Counts["writes_to_the_result_list_in_the_traversal"] = nw
+		out.Floors["writes_to_the_result_list_in_the_traversal"] = 1
+		if len(bad) == 0 {
+			out.ok("the traversal emits one element at a time", p.pos(T.Pos()), fnName(T), fmt.Sprintf("%d write(s) to the result list, each handing over the element just loaded from the sequence", nw))
+		} else {
+			out.viol("the traversal emits one element at a time", p.pos(T.Pos()), fnName(T), bad[0]+": a level emitted in bulk puts siblings ahead of the descendants of earlier siblings (document pre-order is lost)", bad...)
+		}
+		return out
+	},
+}
+
+func init() { register(ruleEmitOrder) }
